@@ -62,6 +62,26 @@ def gen(rng, maxlen):
     return {"ops": ops}
 
 
+def gen_cadence(rng, maxlen):
+    """Directed class: a subscription with multiplicity >= 2 and an interval of several seconds while matching objects
+    arrive one by one, attendance passes in between -- the interval elapses before the multiplicity is met."""
+    app = rng.choice(CONSUMERS)
+    ops = [{"op": "reg_c", "app": app},
+           {"op": "sub", "app": app, "types": [2], "filter": None, "mult": rng.choice((2, 2, 3, 4)), "interval_ms": rng.choice((2000, 3000, 5000)),
+            "order": None, "invalid": None}]
+    for _ in range(rng.randrange(6, 16)):
+        r = rng.random()
+        if r < 0.35:
+            ops.append({"op": "add", "type": 2, "seed": rng.randrange(1 << 30)})
+        elif r < 0.7:
+            ops.append({"op": "adv", "dt": rng.choice((1.0, 1.0, 2.0, 3.0, 4.0, 6.0))})
+        elif r < 0.95:
+            ops.append({"op": "attend"})
+        else:
+            ops.append({"op": "del", "pick": rng.randrange(1 << 16)})
+    return {"ops": ops}
+
+
 def run_case(c, res):
     from vf.vclock import VClock
     from vf import ldmharness as H
@@ -271,7 +291,7 @@ def run_case(c, res):
 def run_shard(spec, res):
     rng = random.Random(spec["seed"])
     for k in range(spec["cases"]):
-        c = gen(rng, spec["maxlen"])
+        c = gen_cadence(rng, spec["maxlen"]) if k % 4 == 3 else gen(rng, spec["maxlen"])
         run_case(c, res)
         res.case(repr(c))
         if k == 0:
@@ -281,7 +301,7 @@ def run_shard(spec, res):
 def shards(tier, seed):
     if tier == "thorough":
         return [{"seed": seed * 67 + i, "cases": 1900, "maxlen": 120} for i in range(16)]
-    return [{"seed": seed * 67 + i, "cases": 40, "maxlen": 90} for i in range(8)]
+    return [{"seed": seed * 67 + i, "cases": 60, "maxlen": 90} for i in range(16)]
 
 
 def replay(case, res):
